@@ -334,6 +334,16 @@ def jobs(tier):
             if na == nb and na in ('key', 'ref', 'plain', 'ns', 'on', 'nativeOn', 'onclick', 'onUpd', 'vmodel', 'vmodelC', 'vmodelS', 'vhtml', 'vtext'):
                 continue
             out.append({'host': h, 'attrs': [a, b]})
+        # a mergeable name written twice (dynamic and constant occurrences in both orders) beside something that gives a positive flag
+        for nm in ('class', 'style', 'onClick'):
+            for x, y in (('d', 's'), ('s', 'd'), ('d', 'c'), ('c', 'd'), ('d', 'd'), ('ca', 'da'), ('da', 'ca')):
+                if nm == 'onClick' and 's' in (x, y):
+                    continue
+                for z in ('plain/d', 'ref/d', 'onFoo/d', 'dir', 'plain/s'):
+                    if tier == 'quick' and z in ('onFoo/d', 'plain/s') and (x, y) not in (('d', 's'), ('d', 'c')):
+                        continue
+                    out.append({'host': h, 'attrs': ['%s/%s' % (nm, x), '%s/%s' % (nm, y), z]})
+                    out.append({'host': h, 'attrs': [z, '%s/%s' % (nm, x), '%s/%s' % (nm, y)]})
         if tier != 'quick':
             pal3 = ['class/d', 'style/s', 'ref/d', 'onClick/d', 'onFoo/d', 'plain/d', 'plain/c', 'spread', 'vmodelC', 'dir', 'onobj']
             for tr in itertools.product(pal3, repeat=3):
